@@ -612,6 +612,9 @@ func init() {
 		c.R.Assume("lock-step is realised through the shared reference model: mode 'all' is compared with the model by C01/C02, mode 'minimal' by this check", "commands of the model workspace are deterministic")
 		// third part: cache faults while dependency outputs are being loaded (missing cache entries)
 		defer missingBlobs(c, "C15", true)
+		// ... and the schedule dimension of that: when loading a dependency's outputs fails, the restore must be
+		// over before the dependency is re-executed (real Registry.LoadOutputs under the controlled scheduler)
+		defer loadQuiescence(c, "C15")
 		// second part: taint / no-cache / failing output check / failures under minimal mode
 		defer chainCheck("C15", []string{"C15:"}, 4, 5, func(e *chainEngine, thorough bool) {
 			e.relabelMinimal = true
